@@ -18,7 +18,7 @@ func init() {
 	register("C10", c10Pending, c10Dispose, c10Slot, c10Clean, c10Deadline, c10Retry, c10Lock,
 		// a streamed response hands its connection back to the pool when the body stream says it is
 		// fully consumed: the drain accounting is part of "reused only after a clean exchange"
-		c14Drain, c14EOF, c10Budget, c10ChPool)
+		c14Drain, c14EOF, c10Budget, c10ChPool, c10Rewind, c10SkipBody)
 }
 
 const pkgClient = Mod + "/pkg/protocol/client"
@@ -790,6 +790,12 @@ func c10Clean(e *Env) {
 						if id, ok := as.Rhs[0].(*ast.Ident); ok && id.Name == "false" && as.Tok == token.DEFINE {
 							return true // initialisation before the decision
 						}
+						// `dv = true` for a variable that occurs un-negated in a condition whose true
+						// side closes the connection only ever forces a close: it cannot pool a
+						// connection that the main assignment would have closed
+						if id, ok := as.Rhs[0].(*ast.Ident); ok && id.Name == "true" && as.Tok == token.ASSIGN && !underNot(dexpr, dv, info) {
+							return true
+						}
 						total++
 						reqC, respC := false, false
 						ast.Inspect(as.Rhs[0], func(m ast.Node) bool {
@@ -1015,6 +1021,10 @@ func c10Retry(e *Env) {
 	w, r := e.W, e.R
 	r.Explainf("C10.retry: ESP typestate on HostClient.Do: every back edge of the loop that re-invokes the exchange is taken only after a retry predicate (client.DefaultRetryIf or a value of type client.RetryIfFunc) evaluated to true since the last attempt; the default predicate returns false for a body stream before anything else and only consults the method tests IsGet/IsHead/IsPut/IsDelete/IsOptions/IsTrace.")
 	do := w.Func("pkg/protocol/http1", "HostClient", "do")
+	if do == nil {
+		// the thin wrapper was inlined into its caller: the exchange itself plays the role
+		do = w.Func("pkg/protocol/http1", "HostClient", "doNonNilReqResp")
+	}
 	retryT := w.Named("pkg/protocol/client", "RetryIfFunc")
 	if do == nil || retryT == nil {
 		r.Anchor(rule, "HostClient.do / client.RetryIfFunc")
@@ -1168,4 +1178,28 @@ func c10Retry(e *Env) {
 		}
 	}
 	r.Check(okGuard, rule, "DefaultRetryIf:bodystream-guard", w.Pos(def.Decl.Pos()), "default retry predicate refuses non-rewindable (streamed) bodies first", "first statement is not `if req.IsBodyStream() { return false }`")
+}
+
+// underNot reports whether variable v occurs below a `!` inside cond.
+func underNot(cond ast.Expr, v *types.Var, info *types.Info) bool {
+	found := false
+	var walk func(x ast.Node, neg bool)
+	walk = func(x ast.Node, neg bool) {
+		ast.Inspect(x, func(n ast.Node) bool {
+			switch y := n.(type) {
+			case *ast.UnaryExpr:
+				if y.Op == token.NOT {
+					walk(y.X, !neg)
+					return false
+				}
+			case *ast.Ident:
+				if info.Uses[y] == types.Object(v) && neg {
+					found = true
+				}
+			}
+			return true
+		})
+	}
+	walk(cond, false)
+	return found
 }
